@@ -26,6 +26,7 @@ CLAUSES = {
     "71": "C07: the connection has ended and every task was polled again, but a send / readiness future is still "
           "pending (it must resolve with Disconnected)",
     "81": "C08: a packet was written while a streamed PUBLISH payload was still owed (interleaved into the payload)",
+    "82": "C08: a send returned PacketIdInUse / an encoder error but its packet was written",
     "131": "C13: at quiescence a task is still parked although the window is open, back-pressure is off and "
            "nothing is outstanding (not one of the recorded findings)",
     "141": "C14: releasing / dropping a QoS 2 receipt did not write exactly one PUBREL with its own id",
@@ -142,6 +143,10 @@ def track(ver, case, obs, want):
             for u, st in tasks.items():
                 if u != t and u < 100 and prev_tasks.get(u, st) != st:
                     return "0,142,%d" % i
+        # --- a send that returns an error must not have written anything (C08: "a failed send leaves no bytes")
+        if 8 in want and code in (1, 2) and t is not None and tasks.get(t) in (4, 5) and prev_tasks.get(t) in (None, 0, 1) \
+                and any(tag in (PUB1, PUB2, PUB0, SUB, UNSUB) for (tag, _) in wire):
+            return "0,82,%d" % i
         # --- status transitions
         for u, st in tasks.items():
             if u >= 100:
@@ -222,6 +227,9 @@ def make_parts(tier, rng, want, quiesced=False, closing=False):
         for role in (0, 1):
             cases = G.gen_all(rng, ver, role, exh_len=5 if not big else 6, exh_limit=4000 if not big else None,
                               n_random=1500 if not big else 20000, n_qos2=300 if not big else 3000)
+            # futures created before any of them is polled (operation 16)
+            cases += G.gen_create(rng, ver, role, exh_len=4 if not big else 5, n_random=500 if not big else 8000,
+                                  exh_limit=1500 if not big else None)
             if quiesced:
                 cases += G.quiesced_cases(rng, ver, role, count=800 if not big else 10000)
             if closing:
